@@ -52,17 +52,19 @@ var ckHllKeys = []string{"t:h1", "u:h2"}
 type ckName struct{ t, i uint64 }
 
 type ckStore struct {
-	id      int
-	dir     string
-	kv      *node.KVStore
-	applied int // index of the last log entry applied = the store's data
-	bi      *rockredis.BackupInfo
-	biName  ckName
-	waited  bool
-	midx    int // model-level applied index (TLC-generated behaviours)
-	lastRes *ckName
-	fetched int  // checkpoints fetched into this store's backup directory so far
-	rewound bool // the store has restored a checkpoint (its engine's file numbers start again from there)
+	id       int
+	dir      string
+	kv       *node.KVStore
+	sm       node.StateMachine // -viasm: the kv state machine that owns kv
+	lastDump string            // logical digest logged last (data as of `applied`)
+	applied  int               // index of the last log entry applied = the store's data
+	bi       *rockredis.BackupInfo
+	biName   ckName
+	waited   bool
+	midx     int // model-level applied index (TLC-generated behaviours)
+	lastRes  *ckName
+	fetched  int  // checkpoints fetched into this store's backup directory so far
+	rewound  bool // the store has restored a checkpoint (its engine's file numbers start again from there)
 }
 
 type ckDrv struct {
@@ -79,6 +81,8 @@ type ckDrv struct {
 	nseg     int
 	rewind   bool // allow a fetch that can reuse local files after the source went back
 	inflight bool // apply entries between the release of the apply loop and the end of a backup
+	viasm    bool // stores are kv state machines; snapshots go through StateMachine.GetSnapshot
+	big      bool // current segment: entries are bulk writes of fixed-length values (large sst files)
 	cnt      map[string]int
 	sample   []string
 	scratch  int
@@ -86,10 +90,13 @@ type ckDrv struct {
 
 func (d *ckDrv) count(k string) { d.cnt[k]++ }
 
+var ckNoWAL bool // -nowal: engines are opened with the configuration option disable_wal
+
 func ckOpen(eng, dir string, keep int) (*node.KVStore, error) {
 	opts := &node.KVOptions{DataDir: dir, EngType: rockredis.EngType, ExpirationPolicy: common.WaitCompact,
 		DataVersion: common.ValueHeaderV1, KeepBackup: keep}
 	opts.RockOpts.EngineType = eng
+	opts.RockOpts.DisableWAL = ckNoWAL
 	return node.NewKVStore(opts)
 }
 
@@ -115,11 +122,24 @@ func (d *ckDrv) reset() error {
 	d.mreal = []int{0}
 	for id := 1; id <= 2; id++ {
 		dir := filepath.Join(d.base, fmt.Sprintf("seg%d-s%d", d.nseg, id))
-		kv, err := ckOpen(d.eng, dir, d.keep)
-		if err != nil {
-			return err
+		st := &ckStore{id: id, dir: dir}
+		if d.viasm {
+			opts := &node.KVOptions{DataDir: dir, EngType: rockredis.EngType, ExpirationPolicy: common.WaitCompact,
+				DataVersion: common.ValueHeaderV1, KeepBackup: d.keep}
+			opts.RockOpts.EngineType = d.eng
+			sm, err := node.NewKVStoreSM(opts, node.MachineConfig{}, uint64(id), "default-0", nil, nil)
+			if err != nil {
+				return err
+			}
+			st.sm, st.kv = sm, node.VerifCkptSMStore(sm)
+		} else {
+			kv, err := ckOpen(d.eng, dir, d.keep)
+			if err != nil {
+				return err
+			}
+			st.kv = kv
 		}
-		d.stores[id] = &ckStore{id: id, dir: dir, kv: kv}
+		d.stores[id] = st
 	}
 	d.tw.Emit(trace.M{"ev": "reset", "eng": d.eng, "keep": d.keep})
 	return nil
@@ -170,6 +190,14 @@ func ckLogical(kv *node.KVStore) string {
 		}
 		out = append(out, fmt.Sprintf("zset %s %v %v %s", k, z, err, flag01(kv.ZSetTtl(key))))
 	}
+	// keys of the large-file histories (absent elsewhere): the ones that are rewritten, and the last one
+	h := sha1.New()
+	for k := 0; k < 40; k++ {
+		v, _ := kv.KVGet(ckBigKey(k))
+		h.Write(v)
+	}
+	last, _ := kv.KVGet(ckBigKey(ckBigN - 1))
+	out = append(out, fmt.Sprintf("big %x %d", h.Sum(nil)[:6], len(last)))
 	for _, k := range ckHllKeys {
 		c, err := kv.PFCount(ckBaseTs, []byte(k))
 		out = append(out, fmt.Sprintf("hll %s %d %v", k, c, err))
@@ -211,7 +239,8 @@ func (d *ckDrv) dump(s *ckStore) string {
 	if len(d.sample) < 2 && s.applied >= 12 {
 		d.sample = append(d.sample, txt)
 	}
-	return digest(txt)
+	s.lastDump = digest(txt)
+	return s.lastDump
 }
 
 func (d *ckDrv) listing(s *ckStore) [][2]uint64 {
@@ -246,7 +275,39 @@ func (d *ckDrv) ls(s *ckStore) {
 
 // applyOp executes log entry `id` on the store.  The operation, its arguments and its log
 // timestamp are a function of (seed, segment, id) only, so a replayed entry is the same entry.
+const ckBigN = 4000
+
+func ckBigKey(k int) []byte { return []byte(fmt.Sprintf("t:big%05d", k)) }
+
+// ckBigVal: 120 incompressible bytes, a function of (entry, key).
+func ckBigVal(id, k int) []byte {
+	r := rand.New(rand.NewSource(ckMix(int64(id), int64(k))))
+	b := make([]byte, 120)
+	r.Read(b)
+	return b
+}
+
+// applyBigOp: entry 1 writes ckBigN keys with fixed-length values; every later entry rewrites
+// the first 20 keys with other values of the same length (the files keep their size, only
+// their first blocks change).
+func (d *ckDrv) applyBigOp(kv *node.KVStore, id int) (string, string) {
+	ts := ckBaseTs + int64(id)*1000000
+	var err error
+	n := 20
+	if id == 1 {
+		n = ckBigN
+	}
+	for k := 0; k < n && err == nil; k++ {
+		err = kv.KVSet(ts, ckBigKey(k), ckBigVal(id, k))
+	}
+	d.count("op_bulkset")
+	return "bulkset " + strconv.Itoa(n), ckErrStr(err)
+}
+
 func (d *ckDrv) applyOp(kv *node.KVStore, id int) (string, string) {
+	if d.big {
+		return d.applyBigOp(kv, id)
+	}
 	r := rand.New(rand.NewSource(ckMix(d.seed*1000+int64(d.nseg), int64(id))))
 	ts := ckBaseTs + int64(id)*1000000
 	key := []byte(ckKeys[r.Intn(len(ckKeys))])
@@ -385,7 +446,8 @@ func (d *ckDrv) compact(s *ckStore) {
 	if !d.applyLoopRuns(s) {
 		return
 	}
-	s.kv.CompactAllRange()
+	// (CompactAllRange passes an empty range, which pebble refuses: name the whole key space)
+	s.kv.CompactRange([]byte{0}, []byte{0xff, 0xff, 0xff, 0xff, 0xff, 0xff, 0xff, 0xff})
 	d.tw.Emit(trace.M{"ev": "compact", "s": s.id, "dump": d.dump(s)})
 	d.count("compacts")
 }
@@ -397,6 +459,23 @@ func (d *ckDrv) bbegin(s *ckStore) bool {
 		return false
 	}
 	name := ckName{d.terms[s.applied-1], uint64(s.applied)}
+	if d.viasm {
+		// the state machine's own snapshot entry point (what the node's apply loop calls): it
+		// returns when the apply loop may go on.  Nothing is read from the store here, so that
+		// the next entry follows as fast as in the apply loop; the data as of this index were
+		// logged with the event that reached it.
+		si, err := s.sm.GetSnapshot(name.t, name.i)
+		ok := err == nil && si != nil && si.BackupInfo != nil
+		d.tw.Emit(trace.M{"ev": "bbegin", "s": s.id, "t": name.t, "i": name.i, "ok": ok, "dump": s.lastDump, "raw": ""})
+		if !ok {
+			return false
+		}
+		s.bi, s.biName, s.waited = si.BackupInfo, name, true
+		d.tw.Emit(trace.M{"ev": "bnotify", "s": s.id})
+		d.count("backups")
+		d.count("backups_via_state_machine")
+		return true
+	}
 	if os.Getenv("CK_DEBUG") != "" {
 		fmt.Fprintln(os.Stderr, "BEFORE BACKUP\n"+ckLogical(s.kv))
 	}
@@ -697,6 +776,49 @@ func (d *ckDrv) rewindScenario() {
 	d.restore(s2, b)
 }
 
+// bigSstScenario: large sst files with fixed-length values, and a store that goes back to an
+// older checkpoint and writes the same file numbers again: checkpoint B and the data directory
+// then hold files of the same name, the same size and the same last 256 kB but other content.
+func (d *ckDrv) bigSstScenario() {
+	s := d.stores[1]
+	backup := func() (ckName, bool) {
+		if !d.bbegin(s) {
+			return ckName{}, false
+		}
+		n := s.biName
+		d.settle(s)
+		return n, true
+	}
+	d.applyN(s, 2)
+	d.compact(s)
+	a, ok := backup()
+	if !ok || !d.restore(s, a) {
+		return
+	}
+	d.applyN(s, 1)
+	d.compact(s)
+	b, ok := backup()
+	if !ok || !d.restore(s, a) {
+		return
+	}
+	d.applyN(s, 2) // the same entry again and one more (same number of rewrites per key: same file size)
+	d.compact(s)
+	if os.Getenv("CK_DEBUG") != "" {
+		for _, dir := range []string{s.kv.GetDataDir(), filepath.Join(s.kv.GetBackupDir(), rockredis.GetCheckpointDir(b.t, b.i))} {
+			ents, _ := ioutil.ReadDir(dir)
+			fmt.Fprintln(os.Stderr, "DIR", dir)
+			for _, e := range ents {
+				fmt.Fprintln(os.Stderr, "   ", e.Name(), e.Size())
+			}
+		}
+	}
+	d.restore(s, b)
+	d.ckdumpAll(s)
+	d.restore(s, a)
+	d.ckdumpAll(s)
+	d.count("bigsst_scenarios")
+}
+
 func (d *ckDrv) randomHistory(steps int) {
 	s1, s2 := d.stores[1], d.stores[2]
 	if d.rewind && d.eng != "mem" {
@@ -846,6 +968,9 @@ func ckptsim(args []string) error {
 	seed := fs.Int64("seed", 1, "")
 	keep := fs.Int("keep", 2, "KeepBackup of the stores (checkpoints kept by the purge)")
 	inflight := fs.Bool("inflight", true, "keep applying entries as soon as WaitReady has returned, while the checkpoint is still being written (false: only after the backup is done)")
+	nbig := fs.Int("bigsst", 0, "number of scripted large-sst histories (bulk writes of fixed-length values, restore - rewrite - restore)")
+	fs.BoolVar(&ckNoWAL, "nowal", false, "open the engines with disable_wal (informational experiment)")
+	viasm := fs.Bool("viasm", false, "stores are kv state machines (node.NewKVStoreSM) and snapshots are taken through StateMachine.GetSnapshot, the entry point of the node's apply loop")
 	rewind := fs.Bool("rewindfetch", false, "also fetch (with reuse of local files) after the source store went back to an older checkpoint (trigger of known finding ckpt-local-fetch-overwrites-hardlink)")
 	fs.Parse(args)
 
@@ -873,7 +998,7 @@ func ckptsim(args []string) error {
 		}
 	}
 	d := &ckDrv{eng: *et, base: base, seed: *seed, keep: *keep, rng: rand.New(rand.NewSource(*seed)),
-		stores: map[int]*ckStore{}, cnt: map[string]int{}, rewind: *rewind, inflight: *inflight}
+		stores: map[int]*ckStore{}, cnt: map[string]int{}, rewind: *rewind, inflight: *inflight, viasm: *viasm}
 	seg := 0
 	var runErr error
 	segment := func(f func()) {
@@ -910,6 +1035,14 @@ func ckptsim(args []string) error {
 			if runErr != nil {
 				return runErr
 			}
+		}
+	}
+	for k := 0; k < *nbig; k++ {
+		d.big = true
+		segment(func() { d.bigSstScenario() })
+		d.big = false
+		if runErr != nil {
+			return runErr
 		}
 	}
 	for k := 0; k < *nrand; k++ {
